@@ -333,7 +333,7 @@ pub fn worker(ctx: &Ctx, res: &mut ShardResult) {
             for (qi, (src, q)) in queries.iter().enumerate() {
                 idx += 1;
                 if !ctx.mine(idx) { continue; }
-                if ctx.quick() && qi >= pats.len() && (qi + d.len()) % 5 != 0 { continue; }
+                if ctx.mini() && qi >= pats.len() && (qi + d.len()) % 5 != 0 { continue; }
                 crate::case!("{}", case_json(lname, src, d, json!({})));
                 res.states += 1;
                 check_pair(ctx, lname, &info.language, src, q, &other, &env, res);
